@@ -482,14 +482,29 @@ func (c *Ctx) positionTracking(info *types.Info) {
 		{"OpCurveTo", "general", nil}, {"OpCurveTo", "hv", []string{"A1-PY", "A4-A2"}}, {"OpCurveTo", "vh", []string{"A0-PX", "A5-A3"}},
 		{"OpClosePath", "general", nil},
 	}
-	n := 0
-	for _, cl := range cells {
-		n++
+	// The tracked position is *state carried from one pass to the next*: a value of the loop header
+	// (two locals) or a memory cell allocated before the loop whose content is read in a pass before
+	// the pass writes it (a field of a local struct, an array element, a local captured by a closure
+	// that the loop body calls).  Both kinds are candidates; the pair (x, y) is chosen once for all
+	// command kinds.
+	type posCand struct {
+		phi *ssa.Phi
+		key string // memory cell (evaluator address)
+	}
+	type req struct {
+		delta sv
+		e     string
+	}
+	type cellRes struct {
+		ok       bool
+		problems []string
+		nreq     int
+	}
+	// runCell evaluates one pass of the loop for one cell of the table with the two candidates px, py
+	// as the tracked position (nil, nil: discovery pass — every float cell read before it is
+	// written is handed to seen).
+	runCell := func(cl cell, px, py *posCand, seen func(key string)) cellRes {
 		ev := &ssaEval{c: c, bind: map[ssa.Value]sv{}, mem: map[string]sv{}}
-		type req struct {
-			delta sv
-			e     string
-		}
 		var reqs []req
 		ev.noInline = func(f *ssa.Function) bool {
 			return f == numFn || (f.Signature.Recv() == nil && f.Signature.Params().Len() == 2 && f.Signature.Results().Len() == 1)
@@ -504,6 +519,9 @@ func (c *Ctx) positionTracking(info *types.Info) {
 				return symV("A" + strings.TrimSuffix(a[i+1:], "]")), true
 			case strings.HasSuffix(a, ".Args"):
 				return sv{k: svAddr, s: "cmd.Args"}, true
+			}
+			if bt, ok := ld.Type().Underlying().(*types.Basic); ok && bt.Info()&types.IsFloat != 0 && strings.HasPrefix(a, "cell") && seen != nil {
+				seen(a)
 			}
 			return symV("v:" + a), true
 		}
@@ -545,19 +563,38 @@ func (c *Ctx) positionTracking(info *types.Info) {
 			return false, false
 		}
 		fr := &frame{vals: map[ssa.Value]sv{}}
+		// what exists before the loop: local cells, addresses inside them, closures over them
+		for _, b := range fn.DomPreorder() {
+			if b == H || !b.Dominates(H) {
+				continue
+			}
+			for _, ins := range b.Instrs {
+				switch x := ins.(type) {
+				case *ssa.Alloc, *ssa.MakeClosure:
+					ev.instr(fr, ins)
+				case *ssa.FieldAddr:
+					if ev.val(fr, x.X).k == svAddr {
+						ev.instr(fr, ins)
+					}
+				case *ssa.IndexAddr:
+					if ev.val(fr, x.X).k == svAddr {
+						ev.instr(fr, ins)
+					}
+				}
+			}
+		}
 		// the loop goes on: its condition is fixed to the value that enters the body
 		if ifi, ok := H.Instrs[len(H.Instrs)-1].(*ssa.If); ok {
 			ev.bind[ifi.Cond] = boolV(reachesBlock(H.Succs[0], H))
 		}
-		// header phis: the two tracked coordinates (floats), the buffer, the range index
-		var floats []*ssa.Phi
+		// header phis: floats are scratch unless chosen below, the buffer, the range index
 		for _, ins := range H.Instrs {
 			if phi, ok := ins.(*ssa.Phi); ok {
 				switch t := phi.Type().Underlying().(type) {
 				case *types.Basic:
 					switch {
 					case t.Info()&types.IsFloat != 0:
-						floats = append(floats, phi)
+						fr.vals[phi] = symV("scratch")
 					case t.Info()&types.IsInteger != 0:
 						fr.vals[phi] = symV("idx")
 					}
@@ -566,130 +603,163 @@ func (c *Ctx) positionTracking(info *types.Info) {
 				}
 			}
 		}
-		// which float is x and which y is decided by how they are used (below): try both
-		construct := fmt.Sprintf("%s (%s): deltas relative to the tracked position, position advanced by what was written", cl.op, cl.shape)
-		var tracked []*ssa.Phi
-		for _, phi := range floats {
-			// a tracked coordinate is re-assigned from itself plus something on the back edge
-			tracked = append(tracked, phi)
-		}
-		if len(tracked) < 2 {
-			c.undecided("NUM-POS", fname, construct, fn.Pos(), "the two tracked coordinates were not found among the values carried by the loop")
-			continue
-		}
-		okCell := false
-		var problems, fewest []string
-		for _, assign := range [][2]int{{0, 1}, {1, 0}} {
-			if len(tracked) > 2 {
-				// other floats carried by the loop are scratch variables
+		for i, cand := range []*posCand{px, py} {
+			name := []string{"PX", "PY"}[i]
+			switch {
+			case cand == nil:
+			case cand.phi != nil:
+				fr.vals[cand.phi] = symV(name)
+			default:
+				ev.mem[cand.key] = symV(name)
 			}
-			for _, phi := range tracked {
-				fr.vals[phi] = symV("scratch")
+		}
+		var from *ssa.BasicBlock
+		back := false
+		_, from, _ = ev.runBlocks(fr, H, nil, func(next, f *ssa.BasicBlock) bool {
+			if next == H {
+				back = true
 			}
-			px, py := tracked[assign[0]], tracked[assign[1]]
-			// with more than two floats, try the first two in declaration order and the pairs
-			fr.vals[px], fr.vals[py] = symV("PX"), symV("PY")
-			reqs = nil
-			ev.effects, ev.why, ev.steps = nil, "", 0
-			var from *ssa.BasicBlock
-			back := false
-			_, from, _ = ev.runBlocks(fr, H, nil, func(next, f *ssa.BasicBlock) bool {
-				if next == H {
-					back = true
+			return next == H
+		})
+		if !back {
+			return cellRes{problems: []string{"the pass does not come back to the loop: " + ev.why}, nreq: len(reqs)}
+		}
+		if px == nil || py == nil {
+			return cellRes{nreq: len(reqs)}
+		}
+		newOf := func(cand *posCand) sv {
+			if cand.phi == nil {
+				return ev.mem[cand.key]
+			}
+			for i, p := range H.Preds {
+				if p == from {
+					return ev.val(fr, cand.phi.Edges[i])
 				}
-				return next == H
-			})
-			if !back {
-				problems = []string{"the pass does not come back to the loop: " + ev.why}
-				if fewest == nil {
-					fewest = problems
-				}
+			}
+			return sv{}
+		}
+		var problems []string
+		axisSum := map[string][]string{}
+		for i, r := range reqs {
+			l := linOf(r.delta)
+			axis := ""
+			if l["PX"] == -1 && l["PY"] == 0 {
+				axis = "PX"
+			}
+			if l["PY"] == -1 && l["PX"] == 0 {
+				axis = "PY"
+			}
+			if axis == "" {
+				problems = append(problems, fmt.Sprintf("delta %d (%s) is not relative to one tracked coordinate", i+1, linString(l)))
 				continue
 			}
-			newOf := func(phi *ssa.Phi) sv {
-				for i, p := range H.Preds {
-					if p == from {
-						return ev.val(fr, phi.Edges[i])
+			targets := 0
+			for k, v := range l {
+				switch {
+				case strings.HasPrefix(k, "A") && v == 1:
+					targets++
+					// the coordinates of a path command alternate x, y: a delta on the x axis aims
+					// at an even entry of Args, a delta on the y axis at an odd one (this also ties
+					// the two tracked values to their axes, so that the trial assignment of the
+					// other order cannot pass by running through the general form)
+					var idx int
+					if _, err := fmt.Sscanf(k, "A%d", &idx); err != nil || (idx%2 == 0) != (axis == "PX") {
+						problems = append(problems, fmt.Sprintf("delta %d (%s) measures coordinate %s of the command against the tracked position of the other axis", i+1, linString(l), k))
 					}
-				}
-				return sv{}
-			}
-			problems = nil
-			axisSum := map[string][]string{}
-			for i, r := range reqs {
-				l := linOf(r.delta)
-				axis := ""
-				if l["PX"] == -1 && l["PY"] == 0 {
-					axis = "PX"
-				}
-				if l["PY"] == -1 && l["PX"] == 0 {
-					axis = "PY"
-				}
-				if axis == "" {
-					problems = append(problems, fmt.Sprintf("delta %d (%s) is not relative to one tracked coordinate", i+1, linString(l)))
-					continue
-				}
-				targets := 0
-				for k, v := range l {
-					switch {
-					case strings.HasPrefix(k, "A") && v == 1:
-						targets++
-						// the coordinates of a path command alternate x, y: a delta on the x axis aims
-						// at an even entry of Args, a delta on the y axis at an odd one (this also ties
-						// the two tracked values to their axes, so that the trial assignment of the
-						// other order cannot pass by running through the general form)
-						var idx int
-						if _, err := fmt.Sscanf(k, "A%d", &idx); err != nil || (idx%2 == 0) != (axis == "PX") {
-							problems = append(problems, fmt.Sprintf("delta %d (%s) measures coordinate %s of the command against the tracked position of the other axis", i+1, linString(l), k))
-						}
-					case k == axis:
-					case strings.HasPrefix(k, "e") && v == -1:
-					default:
-						problems = append(problems, fmt.Sprintf("delta %d (%s) contains the stray term %s", i+1, linString(l), k))
-					}
-				}
-				if targets != 1 {
-					problems = append(problems, fmt.Sprintf("delta %d (%s) does not aim at one coordinate of the command", i+1, linString(l)))
-				}
-				for _, e := range axisSum[axis] {
-					if l[e] != -1 {
-						problems = append(problems, fmt.Sprintf("delta %d (%s) ignores the value %s already written for the same axis: rounding errors accumulate", i+1, linString(l), e))
-					}
-				}
-				axisSum[axis] = append(axisSum[axis], r.e)
-			}
-			for _, ax := range []struct {
-				name string
-				phi  *ssa.Phi
-			}{{"PX", px}, {"PY", py}} {
-				l := linOf(newOf(ax.phi))
-				want := map[string]float64{ax.name: 1}
-				for _, e := range axisSum[ax.name] {
-					want[e] = 1
-				}
-				if linString(l) != linString(want) {
-					problems = append(problems, fmt.Sprintf("the tracked %s becomes %s, expected %s (the position must advance by what was written, not by what was asked for)", ax.name, linString(l), linString(want)))
+				case k == axis:
+				case strings.HasPrefix(k, "e") && v == -1:
+				default:
+					problems = append(problems, fmt.Sprintf("delta %d (%s) contains the stray term %s", i+1, linString(l), k))
 				}
 			}
-			if os.Getenv("PSA_DEBUG_POS") != "" {
-				fmt.Printf("NUM-POS %s/%s assign=%v back=%v why=%s\n", cl.op, cl.shape, assign, back, ev.why)
-				for _, r := range reqs {
-					fmt.Printf("    %s = number(%s)\n", r.e, linString(linOf(r.delta)))
+			if targets != 1 {
+				problems = append(problems, fmt.Sprintf("delta %d (%s) does not aim at one coordinate of the command", i+1, linString(l)))
+			}
+			for _, e := range axisSum[axis] {
+				if l[e] != -1 {
+					problems = append(problems, fmt.Sprintf("delta %d (%s) ignores the value %s already written for the same axis: rounding errors accumulate", i+1, linString(l), e))
 				}
-				fmt.Printf("    problems: %v\n", problems)
 			}
-			if len(problems) == 0 {
-				okCell = true
-				break
+			axisSum[axis] = append(axisSum[axis], r.e)
+		}
+		for _, ax := range []struct {
+			name string
+			cand *posCand
+		}{{"PX", px}, {"PY", py}} {
+			l := linOf(newOf(ax.cand))
+			want := map[string]float64{ax.name: 1}
+			for _, e := range axisSum[ax.name] {
+				want[e] = 1
 			}
-			if fewest == nil || len(problems) < len(fewest) {
-				fewest = problems
+			if linString(l) != linString(want) {
+				problems = append(problems, fmt.Sprintf("the tracked %s becomes %s, expected %s (the position must advance by what was written, not by what was asked for)", ax.name, linString(l), linString(want)))
 			}
 		}
-		c.check(okCell, "NUM-POS", fname, construct, fn.Pos(), fmt.Sprintf("%d numbers written", len(reqs)), "position tracking: "+joinMax(fewest, 3))
+		if os.Getenv("PSA_DEBUG_POS") != "" {
+			fmt.Printf("NUM-POS %s/%s px=%v py=%v why=%s\n", cl.op, cl.shape, *px, *py, ev.why)
+			for _, r := range reqs {
+				fmt.Printf("    %s = number(%s)\n", r.e, linString(linOf(r.delta)))
+			}
+			fmt.Printf("    problems: %v\n", problems)
+		}
+		return cellRes{ok: len(problems) == 0, problems: problems, nreq: len(reqs)}
+	}
+	var cands []*posCand
+	for _, ins := range H.Instrs {
+		if phi, ok := ins.(*ssa.Phi); ok {
+			if t, ok := phi.Type().Underlying().(*types.Basic); ok && t.Info()&types.IsFloat != 0 {
+				cands = append(cands, &posCand{phi: phi})
+			}
+		}
+	}
+	seenKey := map[string]bool{}
+	for _, cl := range cells {
+		if cl.shape == "general" {
+			runCell(cl, nil, nil, func(key string) {
+				if !seenKey[key] {
+					seenKey[key] = true
+					cands = append(cands, &posCand{key: key})
+				}
+			})
+		}
+	}
+	construct := func(cl cell) string {
+		return fmt.Sprintf("%s (%s): deltas relative to the tracked position, position advanced by what was written", cl.op, cl.shape)
+	}
+	if len(cands) < 2 {
+		for _, cl := range cells {
+			c.undecided("NUM-POS", fname, construct(cl), fn.Pos(), "the two tracked coordinates were not found among the state carried from one pass of the loop to the next")
+		}
+	} else {
+		if len(cands) > 6 {
+			cands = cands[:6]
+		}
+		var best []cellRes
+		bestOK := -1
+		for i, px := range cands {
+			for j, py := range cands {
+				if i == j {
+					continue
+				}
+				var res []cellRes
+				nok := 0
+				for _, cl := range cells {
+					r := runCell(cl, px, py, nil)
+					if r.ok {
+						nok++
+					}
+					res = append(res, r)
+				}
+				if nok > bestOK {
+					best, bestOK = res, nok
+				}
+			}
+		}
+		for k, cl := range cells {
+			c.check(best[k].ok, "NUM-POS", fname, construct(cl), fn.Pos(), fmt.Sprintf("%d numbers written", best[k].nreq), "position tracking: "+joinMax(best[k].problems, 3))
+		}
 	}
 	c.rep.Floors["NUM-POS"] = 8
-	_ = n
 	// exhaustiveness of the command switch: every GlyphOpType constant has a case (or default panics)
 	c.glyphOpSwitches()
 }
